@@ -351,7 +351,8 @@ func runC06R3(c *Ctx) {
 		if ok {
 			_, f, _, lok := loadedField(x)
 			_, isCall := w.(*ssa.Call)
-			good = lok && f == "deadline" && isCall
+			// deadline + 1/w, or currentTime + 1/w when currentTime was just set to the served deadline
+			good = lok && isCall && (f == "deadline" || (f == "currentTime" && ctStore != nil && instrDominates(ctStore, dlStore)))
 		}
 		c.Check("C06.R3", fk+":deadline-update", dlStore.Pos(), good, "deadline = deadline + 1/weightFunc(item)", "served entry's deadline is not advanced by exactly 1/weight: hosts are no longer served in proportion to their weights")
 	}
